@@ -35,6 +35,9 @@ pub fn end() -> (Option<Certificate>, bool) {
     (c, HARD_TIMEOUT.load(SeqCst))
 }
 
+/// bumped when a verdict (certificate or hard timeout) is recorded: waits that nothing else could end are released
+pub static RELEASE_GEN: std::sync::atomic::AtomicU64 = std::sync::atomic::AtomicU64::new(0);
+
 fn same(a: &Certificate, b: &Certificate) -> bool {
     a.nodes == b.nodes
 }
@@ -144,6 +147,7 @@ fn run() {
                         CERTS.fetch_add(1, SeqCst);
                         *CERT.lock().unwrap_or_else(|e| e.into_inner()) = Some(c);
                         inspect::kill_descendants();
+                        RELEASE_GEN.fetch_add(1, SeqCst);
                         certified_at = Some(Instant::now());
                         candidate = None;
                     } else if candidate.as_ref().map(|(p, _)| !same(p, &c)).unwrap_or(true) {
@@ -158,6 +162,7 @@ fn run() {
             HARD_TIMEOUT.store(true, SeqCst);
             crate::run::CASE_TAINTED.store(true, SeqCst);
             inspect::kill_descendants();
+            RELEASE_GEN.fetch_add(1, SeqCst);
             case_start = now; // give it another period before giving up completely
         } else if HARD_TIMEOUT.load(SeqCst) && now.duration_since(case_start) >= Duration::from_millis(10_000) {
             crate::run::fatal_inconclusive("case did not end after its descendants were killed (no deadlock certificate)");
